@@ -703,8 +703,62 @@ def run_cases(chk, env, cases_by_family, atoms):
                 # one replay file per key is enough (the first, i.e. smallest, case); all are counted
                 if n == 0 or key in chk.known_keys:
                     chk.violation(key, "%s: %s" % (case_label(case, atoms), describe(res)), {"case": case})
+    if chk.tier == "thorough":
+        run_other_hash_seeds(chk, all_results, atoms, reported)
     chk.cov["failing_cases_per_key"] = reported
     return all_results
+
+
+def seed_worker(path_in, path_out):
+    """Entry point of a helper process started with another PYTHONHASHSEED (the loader iterates over sets of option names)."""
+    data = json.load(open(path_in))
+    env = Env()
+    atoms = {a["idx"]: a for a in CAT.atoms()}
+    out = []
+    for case in data["cases"]:
+        out.append(execute_case(env, case, atoms, data["scratch"], second_round=False))
+    with open(path_out, "w") as f:
+        json.dump(out, f, default=str)
+
+
+def run_other_hash_seeds(chk, all_results, atoms, reported):
+    """thorough: the single options and the pairs inside a section once more under PYTHONHASHSEED 1 and 2"""
+    import subprocess
+    import sys
+    from ..common import VERIF
+    cases = [c for c, r in all_results.get("options", []) if c["layer"] == "component" and not c["inject"]
+             and (len(c["opts"]) == 0 or all(atoms[i]["primary"] for i in c["opts"]))
+             and (len(c["opts"]) < 2 or len({atoms[i]["section"] for i in c["opts"]}) == 1)
+             and c["backend"] in ("local", "lsf", "kubernetes")]
+    for seed in (1, 2):
+        pin, pout = os.path.join(chk.scratch, "seed%d_in.json" % seed), os.path.join(chk.scratch, "seed%d_out.json" % seed)
+        with open(pin, "w") as f:
+            json.dump({"cases": cases, "scratch": os.path.join(chk.scratch, "seed%d" % seed)}, f)
+        e = dict(os.environ, PYTHONHASHSEED=str(seed))
+        p = subprocess.run([sys.executable, "-W", "ignore", "-c",
+                            "import sys; sys.path.insert(0, %r); from harness.checks import c19; c19.seed_worker(%r, %r)" % (VERIF, pin, pout)],
+                           env=e, capture_output=True, text=True, timeout=1200)
+        if p.returncode != 0:
+            raise MachineryError("helper process for PYTHONHASHSEED=%d failed: %s" % (seed, (p.stdout + p.stderr)[-1500:]))
+        outcomes = json.load(open(pout))
+        results = list(zip(cases, outcomes))
+        for case, res in results:
+            if res.get("machinery"):
+                raise MachineryError(res["machinery"])
+            chk.evaluated(("seed", seed) + case_key(case))
+        keys, _ = option_keys(results, atoms)
+        for case, res in results:
+            if not failed(res):
+                chk.trace_validated()
+                continue
+            for key in keys[id(case)]:
+                if key in reported:
+                    continue            # same class already reported under the default hash seed
+                key = "%s@hashseed" % key
+                n = reported.get(key, 0)
+                reported[key] = n + 1
+                if n == 0 or key in chk.known_keys:
+                    chk.violation(key, "PYTHONHASHSEED=%d %s: %s" % (seed, case_label(case, atoms), describe(res)), {"case": case, "hashseed": seed})
 
 
 def observe_inexpressible(chk, env, atoms):
@@ -839,6 +893,13 @@ def replay(path):
     if d["replay"].get("via") == "configuration-class":
         check_configuration_class(chk, env, atoms, [case])
         return chk.finish()
+    seed = d["replay"].get("hashseed")
+    if seed is not None and os.environ.get("PYTHONHASHSEED") != str(seed):
+        import subprocess
+        import sys
+        e = dict(os.environ, PYTHONHASHSEED=str(seed), VERIF_NO_REEXEC="1")
+        shutil.rmtree(chk.scratch, ignore_errors=True)
+        return subprocess.run([sys.executable, os.path.join(os.path.dirname(SPEC), "check"), PID, "--replay", path], env=e).returncode
     res = execute_case(env, case, atoms, os.path.join(chk.scratch, "rt"))
     if res.get("machinery"):
         raise MachineryError(res["machinery"])
